@@ -260,6 +260,69 @@ func c05Run(c *mon.Ctx) {
 			c.Count("parsed_pairs_exercised")
 		}
 	}
+	// index-hostile series: coincident vertices, clusters, collinear runs, built
+	// through Parse under the default options and through the constructors
+	// with both index kinds; then every operation
+	hostile := func(kind string, n int, r *rand.Rand) []geometry.Point {
+		pts := make([]geometry.Point, n)
+		base := geometry.Point{X: float64(r.Intn(7)) + 0.25, Y: float64(r.Intn(5)) - 1.75}
+		for i := range pts {
+			switch kind {
+			case "all-equal":
+				pts[i] = base
+			case "two-values":
+				pts[i] = geometry.Point{X: base.X + float64(i%2), Y: base.Y}
+			case "mostly-equal":
+				pts[i] = base
+				if i%17 == 3 {
+					pts[i] = geometry.Point{X: base.X + float64(r.Intn(100)), Y: base.Y - float64(r.Intn(100))}
+				}
+			case "collinear":
+				pts[i] = geometry.Point{X: base.X + float64(i%5), Y: base.Y + float64(i%5)}
+			default: // tiny cluster with huge outliers
+				pts[i] = geometry.Point{X: base.X + float64(r.Intn(3))*1e-300, Y: base.Y}
+				if i == n/2 {
+					pts[i] = geometry.Point{X: 1e300, Y: -1e300}
+				}
+			}
+		}
+		return pts
+	}
+	hk := []string{"all-equal", "two-values", "mostly-equal", "collinear", "cluster-outlier"}
+	for hi := 0; hi < len(hk)*6; hi++ {
+		item++
+		if !c.Mine(item) {
+			continue
+		}
+		r := c.SubRng("hostile", hi)
+		kind := hk[hi%len(hk)]
+		n := []int{34, 40, 64, 80, 300, 2000}[hi/len(hk)]
+		pts := hostile(kind, n, r)
+		c.Journal(c05Case{Family: "index-hostile series", A: fmt.Sprintf("%s n=%d", kind, n)})
+		var objs []geojson.Object
+		c.SetCase(func() interface{} {
+			return c05Case{Family: "index-hostile series (build)", A: fmt.Sprintf("%s n=%d first=%v", kind, n, pts[0])}
+		})
+		c.Try(func() {
+			for _, ic := range []*geometry.IndexOptions{nil, {Kind: geometry.QuadTree, MinPoints: 1}, {Kind: geometry.RTree, MinPoints: 1}} {
+				objs = append(objs, geojson.NewLineString(geometry.NewLine(pts, ic)), geojson.NewPolygon(geometry.NewPoly(append(append([]geometry.Point{}, pts...), pts[0]), nil, ic)))
+			}
+			ln := nLine(pts)
+			if o, err := geojson.Parse(ln.JSON(), nil); err == nil {
+				objs = append(objs, o)
+			}
+			pg := nPoly(append(append([]geometry.Point{}, pts...), pts[0]))
+			if o, err := geojson.Parse(pg.JSON(), nil); err == nil {
+				objs = append(objs, o)
+			}
+		})
+		probe := geojson.NewPoint(pts[0])
+		for _, o := range objs {
+			c05Exercise(c, "index-hostile series", fmt.Sprintf("%s n=%d %T", kind, n, o), "Point(first vertex)", o, probe)
+			c05Exercise(c, "index-hostile series", "Point(first vertex)", fmt.Sprintf("%s n=%d %T", kind, n, o), probe, o)
+		}
+		c.Count("hostile_series")
+	}
 	// truncation at every byte offset of a set of documents
 	nTrunc := c.Pick(60, 600)
 	for i := 0; i < nTrunc; i++ {
@@ -319,7 +382,7 @@ func init() {
 		Rule:        "every operation of Object, Spatial, Collection, geometry.Geometry and Series (21 operation groups) on ordered pairs of: 33 degenerate constructor-built objects (NewPolygon(nil), empty and 1-point lines, 2-point rings, empty and nested-empty collections, zero/negative/NaN-radius circles, inverted rectangles ...), random object trees of all kinds with empties and special floats, adversarial line pairs for the Line.ContainsLine walk (shared vertices, back-tracking, repeated vertices), and parsed objects; Parse under 17 option combinations on grammar documents, every structural mutant class, byte-level corruptions, truncation at every byte offset of 60 (thorough 600) documents, and nesting depths 10..5000 (thorough 20000). Monitors: recover()-based panic monitor, step budget in the Line.ContainsLine walk (hook), Parse object-xor-error, a no-progress watchdog confirmed by an isolated re-run, and process-fatal events attributed through a journal. Non-trivial = distinct (receiver, argument) pair.",
 		Assumptions: []string{"'never loops forever' is restated as bounded progress: the walk step budget 2(n+1)(m+1)+16 and a 90 s no-progress watchdog per worker, confirmed by an isolated re-run before it counts", "nil arguments are out of scope except where a constructor explicitly accepts nil", "the thorough tier runs the whole workload in a -race build (which implies checkptr for the unsafe conversions in the JSON dependency); a process-fatal report is attributed through the journal"},
 		Run:         c05Run,
-		MustSee:     []string{"degenerate_pairs_done", "parse_accepted", "parse_rejected", "parsed_pairs_exercised", "truncation_sets", "deep_nesting_done", "deep_objects_exercised"},
+		MustSee:     []string{"degenerate_pairs_done", "parse_accepted", "parse_rejected", "parsed_pairs_exercised", "truncation_sets", "hostile_series", "deep_nesting_done", "deep_objects_exercised"},
 		HangSecs:    90,
 	})
 }
